@@ -1,118 +1,181 @@
 """C19 - C back ends: same operator meanings and a reference held for
 every handle.
 
-The C libraries are absent, so the wrappers are compiled (Cython + gcc,
-both present) against instrumented stand-ins under /verif/fake/ whose
-nodes are hash-consed truth tables with per-node external reference
-counters. The wrapper code of the working tree is what executes; the
-stand-in is the observation point.
+The C libraries are absent, so the wrappers dd/cudd.pyx, dd/sylvan.pyx
+and dd/buddy.pyx of the working tree are compiled (Cython + gcc, both
+present) against instrumented stand-ins under /verif/fake/ whose nodes
+are hash-consed truth tables with per-node external reference counters,
+and executed. The wrapper code is what runs; the stand-in is the
+observation point. dd/cudd_zdd.pyx is not covered (DESIGN.md section 5).
 """
 import collections
 import ctypes
 import gc
 import itertools
 import os
+import re
 import shutil
-import sys
+import types
 
 from vf import cbuild, common, formula
 from vf.common import Violation, EVENTS
 from vf.oracle import Space, BINOPS, UNOPS, QUANT_OPS
 
 RULE = (
-    'dd/cudd.pyx of the working tree is cythonized and compiled against '
-    'the instrumented stand-in /verif/fake/cudd (truth-table nodes, '
-    'per-node counter of Cudd_Ref minus Cudd_RecursiveDeref/Cudd_Deref, '
-    'hostile automatic reordering) and executed. (A) apply with every one '
-    'of the 27 operator symbols on every ordered pair of the 256 functions '
-    'of 3 variables (quantifier forms: first operand ranges over the 8 '
-    'positive cubes; ite: all g x sampled (u, v)), Function operators, '
-    'judged by the truth table read from the stand-in against the same '
-    'reference model that judges the pure-Python manager in C01, and '
-    'cross-checked against dd.bdd on sampled operands; (B) histories of '
-    'wrapper calls (apply, ite, quantify/exist/forall, let x3, cube, var, '
-    'add_expr, to_expr, support, count, pick_iter, low/high/succ, copy '
-    'between managers, incref/decref, Function operators and methods, '
-    'rejected calls) with a pool of live Function objects: after every '
-    'step the set of nodes with a non-zero external count in the stand-in '
-    'must equal the nodes of the live Functions with count == sum of their '
-    '_ref; no release of an unreferenced node; at the end everything is '
-    'dropped: no node referenced, manager shutdown passes. Non-trivial: '
+    'dd/cudd.pyx, dd/sylvan.pyx and dd/buddy.pyx of the working tree are '
+    'cythonized and compiled against the instrumented stand-ins '
+    '/verif/fake/{cudd,sylvan,buddy} (truth-table nodes; per-node counter '
+    'of library references taken minus released by the wrapper; for CUDD '
+    'hostile automatic reordering) and executed. (A) for every one of the '
+    '27 operator symbols that the wrapper\'s apply accepts: every ordered '
+    'pair of the 256 functions of 3 variables (quantifier forms: first '
+    'operand ranges over the 8 positive cubes, which is what the C '
+    'libraries abstract over; ite: all g x sampled (u, v)), Function '
+    'operators and comparisons, judged by the truth table read from the '
+    'stand-in against the reference model that judges the pure-Python '
+    'manager in C01, and cross-checked against dd.bdd.BDD.apply on '
+    'sampled operands; symbols a wrapper refuses are only listed; (B) '
+    'histories of wrapper calls (whatever the wrapper offers of: apply, '
+    'ite, quantify/exist/forall, let x3, cube, var, add_expr, to_expr, '
+    'support, count, pick_iter, low/high/succ, copy between managers, '
+    'incref/decref, module-level and_exists/or_forall/restrict/rename, '
+    'Function operators and methods, rejected calls, reordering) with a '
+    'pool of live Function objects: after every step the set of nodes '
+    'with a non-zero external count in the stand-in must equal the nodes '
+    'of the live Functions, count == number of references they hold; no '
+    'release of an unreferenced node; at the end everything is dropped: '
+    'no node referenced, manager shutdown passes. Non-trivial: '
     'non-constant operands; enumerated cases distinct by construction, '
     'history states by hash.')
 
 NAMES = ('a', 'b', 'c')
+BACKENDS = ('cudd', 'sylvan', 'buddy')
 
 
 def plan(tier, seed):
     specs = []
     syms = sorted(BINOPS) + sorted(QUANT_OPS)
-    for k in range(4):
-        specs.append(dict(kind='cudd-ops', syms=syms[k::4], unary=(k == 0),
-                          hashseed=k))
-    specs.append(dict(kind='cudd-ite', hashseed=1))
-    nh = 32 if tier == 'thorough' else 8
-    for k in range(nh):
-        specs.append(dict(kind='cudd-history', sub=k, n=3 + k % 3,
-                          steps=4000 if tier == 'thorough' else 500,
-                          hashseed=k))
+    for be in BACKENDS:
+        parts = 4 if be != 'buddy' else 1
+        for k in range(parts):
+            specs.append(dict(kind='ops', backend=be, syms=syms[k::parts],
+                              unary=(k == 0), hashseed=k))
+        if be != 'buddy':
+            specs.append(dict(kind='ite', backend=be, hashseed=1))
+        nh = (32 if tier == 'thorough' else 8) if be == 'cudd' else \
+            (16 if tier == 'thorough' else 4)
+        for k in range(nh):
+            specs.append(dict(kind='history', backend=be, sub=k,
+                              n=3 + k % 3,
+                              steps=4000 if tier == 'thorough' else 500,
+                              hashseed=k))
     meta = dict(
         rule=RULE,
         require=['apply_results', 'ite_results', 'function_op_results',
                  'python_manager_cross_checks', 'history_steps',
                  'ledger_checks', 'handles_released', 'shutdown_checks',
-                 'order_rotations'],
+                 'order_rotations', 'apply_results_cudd',
+                 'apply_results_sylvan', 'apply_results_buddy'],
         assumptions=[
-            'only dd/cudd.pyx is executed (dd/cudd_zdd.pyx, dd/sylvan.pyx, '
-            'dd/buddy.pyx are not covered: see DESIGN.md section 5)',
-            'the stand-in library /verif/fake/cudd implements the CUDD '
+            'dd/cudd_zdd.pyx is not executed (its recursions are written '
+            'against internal ZDD node structure of CUDD)',
+            'the stand-in libraries under /verif/fake/ implement the C '
             'entry points semantically on truth tables of <= 6 variables; '
-            'it is the trusted base of this check',
+            'they are the trusted base of this check',
             'quantifier forms of apply: first operand is a positive cube '
-            '(CUDD abstracts over the variables of a cube)'],
+            '(the C libraries abstract over the variables of a cube)'],
         timeout=1500 if tier == 'quick' else 5400)
     return specs, meta
 
 
+# ------------------------------------------------------------ adapters
 class Backend:
-    """Freshly built `dd.cudd` of the working tree + stand-in probes."""
+    """Freshly built wrapper of the working tree + stand-in probes."""
 
-    def __init__(self):
+    def __init__(self, name):
         import dd
-        self.tmp, so = cbuild.build('cudd')
+        self.name = name
+        self.tmp, so = cbuild.build(name)
         dd.__path__.append(os.path.join(self.tmp, 'dd'))
-        import dd.cudd as _c
-        if os.path.abspath(_c.__file__) != os.path.abspath(so):
-            raise common.Inconclusive(f'dd.cudd loaded from {_c.__file__}')
-        self.m = _c
+        import importlib
+        self.m = importlib.import_module(f'dd.{name}')
+        if os.path.abspath(self.m.__file__) != os.path.abspath(so):
+            raise common.Inconclusive(
+                f'dd.{name} loaded from {self.m.__file__}')
         lib = ctypes.CDLL(so)
-        lib.fakecudd_tt.restype = ctypes.c_uint64
-        lib.fakecudd_tt.argtypes = [ctypes.c_size_t]
-        lib.fakecudd_dump.argtypes = [ctypes.c_void_p, ctypes.c_int]
         self.lib = lib
-        self.stats = (ctypes.c_long * 8).in_dll(lib, 'fakecudd_stats')
-        self.buf = (ctypes.c_size_t * 8192)()
+        self._tt = getattr(lib, f'fake{name}_tt')
+        self._tt.restype = ctypes.c_uint64
+        self._tt.argtypes = [ctypes.c_uint64 if name != 'buddy'
+                             else ctypes.c_int]
+        self._dump = getattr(lib, f'fake{name}_dump')
+        self._dump.argtypes = [ctypes.c_void_p, ctypes.c_int]
+        self.stats = (ctypes.c_long * 8).in_dll(lib, f'fake{name}_stats')
+        self.buf = (ctypes.c_uint64 * 16384)()
+        self.features = dict(
+            cudd={'ite', 'quantify', 'let', 'cube', 'cube-signs',
+                  'support', 'count', 'pick', 'to_expr', 'traverse',
+                  'copy', 'incref', 'reorder', 'add_expr', 'fmethods',
+                  'implies-equiv', 'rejected'},
+            sylvan={'ite', 'quantify', 'let', 'cube', 'cube-signs',
+                    'support', 'pick', 'traverse', 'add_expr',
+                    'sylvan-module', 'rejected'},
+            buddy={'cube', 'buddy-module'})[name]
+
+    # --- handles
+    def handle(self, f):
+        if self.name == 'cudd':
+            return int(f) - 2
+        if self.name == 'sylvan':
+            return int(re.search(r'node=(\d+)', str(f)).group(1))
+        return f.node
 
     def tt(self, f, sp):
-        """Truth table of Function `f` over Space `sp` (names declared
-        in sorted order, so CUDD index i is bit i)."""
-        return self.lib.fakecudd_tt(int(f) - 2) & sp.full
+        return self._tt(self.handle(f)) & sp.full
 
-    def ptr(self, f):
-        return (int(f) - 2) & ~1
+    def key(self, f):
+        """Ledger key of the node of `f`, None for constants that the
+        library does not count."""
+        h = self.handle(f)
+        if self.name == 'cudd':
+            return h & ~1
+        if self.name == 'sylvan':
+            k = h & 0x7fffffffffffffff
+            return k or None
+        return h if h >= 2 else None
+
+    def nrefs(self, f):
+        return f._ref if self.name == 'cudd' else 1
 
     def referenced(self):
-        n = self.lib.fakecudd_dump(self.buf, 8192)
+        n = self._dump(self.buf, 16384)
         return {self.buf[2 * i]: self.buf[2 * i + 1] for i in range(n)}
+
+    def managers_alive(self):
+        if self.name == 'cudd':
+            return self.lib.fakecudd_managers()
+        return getattr(self.lib, f'fake{self.name}_running')()
+
+    def manager(self, names):
+        bdd = self.m.BDD()
+        for v in names:
+            bdd.add_var(v)
+        return bdd
 
     def close(self):
         shutil.rmtree(self.tmp, ignore_errors=True)
 
 
 def all_functions(be, bdd, sp):
-    """Function objects for every table over `sp`, via var + ite."""
+    """Function objects for every table over `sp`, through the wrapper
+    (var + ite where offered, else and/or/not)."""
     xs = {v: bdd.var(v) for v in sp.names}
     memo = {sp.full: bdd.true, 0: bdd.false}
+
+    def ite(g, a, b):
+        if 'ite' in be.features:
+            return bdd.ite(g, a, b)
+        return (g & a) | (~g & b)
 
     def rec(t, i):
         if t in memo:
@@ -123,13 +186,14 @@ def all_functions(be, bdd, sp):
             if lo != hi:
                 break
             i += 1
-        r = bdd.ite(xs[v], rec(hi, i + 1), rec(lo, i + 1))
+        r = ite(xs[v], rec(hi, i + 1), rec(lo, i + 1))
         memo[t] = r
         return r
     F = [rec(t, 0) for t in range(sp.full + 1)]
     for t, f in enumerate(F):
         if be.tt(f, sp) != t:
-            raise Violation('cudd.ite', 'wrong-result', (t, be.tt(f, sp)))
+            raise Violation(f'{be.name}.ite', 'wrong-result',
+                            (t, be.tt(f, sp)))
     return F
 
 
@@ -141,24 +205,38 @@ MODEL = dict(
     DIFF=lambda sp, i, j: i & (sp.full ^ j))
 
 
-def cudd_ops(ctx, spec, be):
+def accepted(bdd, sym, *operands):
+    """Does the wrapper's apply accept this symbol at all ?"""
+    try:
+        bdd.apply(sym, *operands)
+        return True
+    except Exception:
+        return False
+
+
+def ops(ctx, spec, be):
     mgrs = []
-    _cudd_ops(ctx, spec, be, mgrs)
+    _ops(ctx, spec, be, mgrs)
+    _clear_leaked_tracebacks(ctx)
     _shutdown(ctx, be, mgrs)
 
 
-def _cudd_ops(ctx, spec, be, mgrs):
-    c = be.m
+def _ops(ctx, spec, be, mgrs):
     sp = Space(NAMES)
-    bdd = c.BDD()
+    bdd = be.manager(NAMES)
     mgrs.append(bdd)
-    bdd.declare(*NAMES)
+    name = be.name
     F = all_functions(be, bdd, sp)
     cubes = [sp.cube_table({v: True for v in s})
              for k in range(4) for s in itertools.combinations(NAMES, k)]
     n = nt = bad = 0
+    used = []
     for sym in spec['syms']:
         quant = sym in QUANT_OPS
+        if not accepted(bdd, sym, F[cubes[1]], F[23]):
+            ctx.note(f'refused_by_{name}', sym)
+            continue
+        used.append(sym)
         firsts = cubes if quant else range(256)
         for i in firsts:
             fi = F[i]
@@ -175,39 +253,46 @@ def _cudd_ops(ctx, spec, be, mgrs):
                 if got != want:
                     bad += 1
                     ctx.violation(
-                        'cudd.apply', 'wrong-result',
+                        f'{name}.apply', 'wrong-result',
                         dict(op=sym, u=sp.fmt(i), v=sp.fmt(j),
                              got=sp.fmt(got), want=sp.fmt(want)),
-                        case=dict(op=sym, i=i, j=j))
+                        case=dict(backend=name, op=sym, i=i, j=j))
                     if bad > 3:
                         return
-        ctx.note('symbols', sym)
+        ctx.note(f'symbols_{name}', sym)
     if spec.get('unary'):
         for sym in UNOPS:
+            if not accepted(bdd, sym, F[23]):
+                ctx.note(f'refused_by_{name}', sym)
+                continue
             for i in range(256):
                 if be.tt(bdd.apply(sym, F[i]), sp) != 255 ^ i:
-                    ctx.violation('cudd.apply-not', 'wrong-result',
+                    ctx.violation(f'{name}.apply-not', 'wrong-result',
                                   dict(op=sym, u=sp.fmt(i)))
                     break
                 n += 1
-            ctx.note('symbols', sym)
+            ctx.note(f'symbols_{name}', sym)
         # Function operators and comparisons
         m = 0
+        full = 'implies-equiv' in be.features
         for i in range(256):
             a = F[i]
             for j in range(0, 256, 3):
                 b = F[j]
-                got = (be.tt(~a, sp), be.tt(a & b, sp), be.tt(a | b, sp),
-                       be.tt(a.implies(b), sp), be.tt(a.equiv(b), sp),
-                       a <= b, a < b, a == b, a != b, a >= b, a > b)
-                imp = (i & (255 ^ j)) == 0
-                pmi = (j & (255 ^ i)) == 0
-                want = (255 ^ i, i & j, i | j, (255 ^ i) | j, 255 ^ i ^ j,
-                        imp, imp and i != j, i == j, i != j, pmi,
-                        pmi and i != j)
-                m += 11
+                got = [be.tt(~a, sp), be.tt(a & b, sp), be.tt(a | b, sp),
+                       a == b, a != b]
+                want = [255 ^ i, i & j, i | j, i == j, i != j]
+                if full:
+                    imp = (i & (255 ^ j)) == 0
+                    pmi = (j & (255 ^ i)) == 0
+                    got += [be.tt(a.implies(b), sp), be.tt(a.equiv(b), sp),
+                            a <= b, a < b, a >= b, a > b]
+                    want += [(255 ^ i) | j, 255 ^ i ^ j, imp,
+                             imp and i != j, pmi, pmi and i != j]
+                m += len(want)
                 if got != want:
-                    ctx.violation('cudd.Function-operators', 'wrong-result',
+                    ctx.violation(f'{name}.Function-operators',
+                                  'wrong-result',
                                   dict(u=sp.fmt(i), v=sp.fmt(j),
                                        got=repr(got), want=repr(want)))
                     bad += 1
@@ -217,17 +302,17 @@ def _cudd_ops(ctx, spec, be, mgrs):
         ctx.counters['function_op_results'] += m
         ctx.counters['evaluations'] += m
         ctx.distinct_enum += m
+    if used:
         # cross-check against the pure-Python manager on sampled operands
         import dd.bdd as _b
         from vf.oracle import build, Denoter
-        rng = ctx.rng('cross')
+        rng = ctx.rng('cross', name)
         pb = _b.BDD({v: i for i, v in enumerate(NAMES)})
         P = [build(pb, t, sp) for t in range(256)]
         for r in P:
             pb.incref(r)
-        den = None
-        for _ in range(4000):
-            sym = rng.choice(sorted(BINOPS) + sorted(QUANT_OPS))
+        for _ in range(3000):
+            sym = rng.choice(used)
             i = rng.choice(cubes) if sym in QUANT_OPS else rng.randrange(256)
             j = rng.randrange(256)
             pr = pb.apply(sym, P[i], P[j])
@@ -235,34 +320,36 @@ def _cudd_ops(ctx, spec, be, mgrs):
             got = be.tt(bdd.apply(sym, F[i], F[j]), sp)
             ctx.counters['python_manager_cross_checks'] += 1
             if got != want:
-                ctx.violation('cudd.apply', 'differs-from-python-manager',
+                ctx.violation(f'{name}.apply', 'differs-from-python-manager',
                               dict(op=sym, u=sp.fmt(i), v=sp.fmt(j),
-                                   cudd=sp.fmt(got), python=sp.fmt(want)))
+                                   wrapper=sp.fmt(got),
+                                   python=sp.fmt(want)))
                 break
         for r in P:
             pb.decref(r)
     ctx.counters['evaluations'] += n
     ctx.counters['apply_results'] += n
+    ctx.counters[f'apply_results_{name}'] += n
     ctx.distinct_enum += nt
     ctx.exhaustive = True
-    ctx.counters['order_rotations'] += be.stats[3]
-    ctx.sample(dict(kind='cudd-ops', symbols=spec['syms'], pairs=65536))
+    if name == 'cudd':
+        ctx.counters['order_rotations'] += be.stats[3]
+    ctx.sample(dict(kind='ops', backend=name, symbols_checked=used,
+                    pairs=65536))
 
 
-def cudd_ite(ctx, spec, be):
+def ite_sweep(ctx, spec, be):
     mgrs = []
-    _cudd_ite(ctx, spec, be, mgrs)
+    _ite(ctx, spec, be, mgrs)
     _shutdown(ctx, be, mgrs)
 
 
-def _cudd_ite(ctx, spec, be, mgrs):
-    c = be.m
+def _ite(ctx, spec, be, mgrs):
     sp = Space(NAMES)
-    bdd = c.BDD()
+    bdd = be.manager(NAMES)
     mgrs.append(bdd)
-    bdd.declare(*NAMES)
     F = all_functions(be, bdd, sp)
-    rng = ctx.rng('ite')
+    rng = ctx.rng('ite', be.name)
     uv = [(rng.randrange(256), rng.randrange(256)) for _ in range(300)]
     n = 0
     for g in range(256):
@@ -272,39 +359,40 @@ def _cudd_ite(ctx, spec, be, mgrs):
                 bdd.apply('ite', F[g], F[u], F[v])
             n += 1
             if be.tt(r, sp) != (g & u) | ((255 ^ g) & v):
-                ctx.violation('cudd.ite', 'wrong-result',
+                ctx.violation(f'{be.name}.ite', 'wrong-result',
                               dict(g=sp.fmt(g), u=sp.fmt(u), v=sp.fmt(v)))
                 return
     ctx.counters['evaluations'] += n
     ctx.counters['ite_results'] += n
     ctx.distinct_enum += n
-    ctx.sample(dict(kind='cudd-ite', triples=n))
+    ctx.sample(dict(kind='ite', backend=be.name, triples=n))
 
 
 def _shutdown(ctx, be, managers):
     """Everything dropped: nothing referenced; managers shut down."""
+    name = be.name
     gc.collect()
     left = be.referenced()
     if left:
-        ctx.violation('cudd', 'nodes-referenced-after-all-handles-dropped',
+        ctx.violation(name, 'nodes-referenced-after-all-handles-dropped',
                       dict(nodes=len(left), counts=sorted(left.values())[:8]))
     if be.stats[0]:
-        ctx.violation('cudd', 'released-an-unreferenced-node',
+        ctx.violation(name, 'released-an-unreferenced-node',
                       dict(times=be.stats[0]))
         be.stats[0] = 0
-    before = be.lib.fakecudd_managers()
+    before = be.managers_alive()
     n = len(managers)
     del managers[:]
     gc.collect()
     un, ws = EVENTS.drain()
-    for name, msg, obj in un:
-        if 'dd.cudd' in obj or 'referenced upon shutdown' in msg and \
-                'Still' in msg:
-            ctx.violation('cudd.BDD.__dealloc__', 'shutdown-check-fails',
-                          f'{name}: {msg}')
-    after = be.lib.fakecudd_managers()
+    for ename, msg, obj in un:
+        if f'dd.{name}' in obj or ('referenced upon shutdown' in msg and
+                                    'Still' in msg):
+            ctx.violation(f'{name}.BDD.__dealloc__', 'shutdown-check-fails',
+                          f'{ename}: {msg}')
+    after = be.managers_alive()
     if before - after != n and not left:
-        ctx.violation('cudd.BDD.__dealloc__', 'manager-not-released',
+        ctx.violation(f'{name}.BDD.__dealloc__', 'manager-not-released',
                       dict(before=before, after=after, expected=n))
     ctx.counters['shutdown_checks'] += 1
 
@@ -313,16 +401,14 @@ def _clear_leaked_tracebacks(ctx):
     """Toolchain artefact, not dd: with Cython 3.0.0 on CPython 3.12 every
     exception that passes through a Cython function leaks its traceback
     object (measured: 50 failing `bdd.var('zzz')` leave 50 tracebacks that
-    no object refers to). The leaked frames keep their locals - here the
-    parser stack with Function objects - alive for ever. The harness
-    clears those dead frames so that the ledger only sees references the
-    wrapper itself holds."""
-    import types
+    no object refers to). The leaked frames - and through f_back their
+    finished callers - keep their locals alive, e.g. the parser stack
+    with Function objects. The harness clears those dead frames so that
+    the ledger only sees references the wrapper itself holds."""
     gc.collect()
     n = 0
     for o in gc.get_objects():
         if isinstance(o, types.TracebackType):
-            # the leaked frame and, through f_back, its finished callers
             f = o.tb_frame
             while f is not None:
                 try:
@@ -336,22 +422,23 @@ def _clear_leaked_tracebacks(ctx):
 
 
 class Hist:
-    """Random history through the dd.cudd API with a pool of live
+    """Random history through a wrapper's API with a pool of live
     Function objects and the stand-in as ledger."""
 
     def __init__(self, ctx, be, rng, n):
         self.ctx, self.be, self.rng = ctx, be, rng
         self.names = tuple('abcdef'[:n])
         self.sp = Space(self.names)
-        self.bdd = be.m.BDD()
-        self.bdd.declare(*self.names)
+        self.bdd = be.manager(self.names)
         self.pool = []     # [Function, table]
         self.site = 'init'
+        self.feat = be.features
+        self.P = be.name + '.'
 
     def hold(self, f, want, site):
         got = self.be.tt(f, self.sp)
         if want is not None and got != want:
-            raise Violation(site, 'wrong-result',
+            raise Violation(self.P + site, 'wrong-result',
                             dict(got=self.sp.fmt(got),
                                  want=self.sp.fmt(want)))
         self.pool.append([f, got])
@@ -361,23 +448,28 @@ class Hist:
 
     def check(self, site):
         gc.collect()
+        be = self.be
         exp = collections.Counter()
         for f, t in self.pool:
-            exp[self.be.ptr(f)] += f._ref
-            if self.be.tt(f, self.sp) != t:
-                raise Violation(site, 'live-handle-changed-meaning', None)
-        have = self.be.referenced()
+            k = be.key(f)
+            if k is not None:
+                exp[k] += be.nrefs(f)
+            if be.tt(f, self.sp) != t:
+                raise Violation(self.P + site, 'live-handle-changed-meaning',
+                                None)
+        have = be.referenced()
         if dict(exp) != have:
             extra = {k: v for k, v in have.items() if exp.get(k) != v}
             miss = {k: v for k, v in exp.items() if have.get(k) != v}
-            raise Violation(site, 'reference-count-mismatch',
+            raise Violation(self.P + site, 'reference-count-mismatch',
                             dict(library=len(extra), handles=len(miss),
                                  library_counts=sorted(extra.values())[:6],
                                  handle_counts=sorted(miss.values())[:6]))
-        if self.be.stats[0]:
-            n = self.be.stats[0]
-            self.be.stats[0] = 0
-            raise Violation(site, 'released-an-unreferenced-node', n)
+        if be.stats[0]:
+            n = be.stats[0]
+            be.stats[0] = 0
+            raise Violation(self.P + site, 'released-an-unreferenced-node',
+                            n)
         self.ctx.counters['ledger_checks'] += 1
 
     def _rejected(self):
@@ -402,154 +494,179 @@ class Hist:
 
     def step(self):
         rng, sp, bdd, c = self.rng, self.sp, self.bdd, self.be.m
+        feat = self.feat
         names = list(self.names)
-        if len(self.pool) < 2:
-            k = 0
-        else:
-            k = rng.randrange(24)
+        k = 0 if len(self.pool) < 2 else rng.randrange(26)
+        site = None
         if k <= 1:
             v = rng.choice(names)
-            self.hold(bdd.var(v), sp.var(v), 'cudd.var')
+            self.hold(bdd.var(v), sp.var(v), 'var')
             site = 'var'
-        elif k == 2:
-            # (no `\S`: dd.cudd.BDD has no method `rename`, which the
+        elif k == 2 and 'add_expr' in feat:
+            # (no `\S`: the wrappers have no method `rename`, which the
             # parser needs for it - outside this property, see DESIGN.md)
             s = formula.gen(rng, names, rng.randint(1, 4), binders=True,
                             renames=False)
             want = formula.meaning(s, sp)
-            self.hold(bdd.add_expr(s), want, 'cudd.add_expr')
+            self.hold(bdd.add_expr(s), want, 'add_expr')
             site = 'add_expr'
         elif k <= 6:
-            sym = rng.choice(sorted(BINOPS))
+            syms = sorted(BINOPS) if self.be.name != 'buddy' else \
+                ['&', 'and', '|', 'or', '#', '^', 'xor']
+            sym = rng.choice(syms)
             (a, ta), (b, tb) = self.pick(), self.pick()
             self.hold(bdd.apply(sym, a, b),
-                      MODEL[BINOPS[sym]](sp, ta, tb), 'cudd.apply')
+                      MODEL[BINOPS[sym]](sp, ta, tb), 'apply')
             site = 'apply'
-        elif k == 7:
+        elif k == 7 and 'ite' in feat:
             (g, tg), (a, ta), (b, tb) = self.pick(), self.pick(), self.pick()
-            self.hold(bdd.ite(g, a, b), sp.ITE(tg, ta, tb), 'cudd.ite')
+            self.hold(bdd.ite(g, a, b), sp.ITE(tg, ta, tb), 'ite')
             site = 'ite'
-        elif k == 8:
+        elif k == 8 and 'quantify' in feat:
             a, ta = self.pick()
             qv = rng.sample(names, rng.randint(0, 2))
             fa = rng.random() < 0.5
-            how = rng.randrange(4)
+            how = rng.randrange(4 if 'fmethods' in feat else 3)
             if how == 0:
                 r = bdd.quantify(a, qv, forall=fa)
             elif how == 1:
                 r = (bdd.forall if fa else bdd.exist)(qv, a)
             elif how == 2:
-                r = (a.forall if fa else a.exist)(*qv)
-            else:
                 cube = bdd.cube({v: True for v in qv})
                 r = bdd.apply('\\A' if fa else '\\E', cube, a)
-                del cube
+                cube = None
+            else:
+                r = (a.forall if fa else a.exist)(*qv)
             self.hold(r, (sp.forall if fa else sp.exists)(ta, qv),
-                      'cudd.quantify')
+                      'quantify')
             site = 'quantify'
-        elif k == 9:
+        elif k == 9 and 'let' in feat:
             a, ta = self.pick()
             d = {v: rng.random() < 0.5 for v in
                  rng.sample(names, rng.randint(1, 2))}
-            r = bdd.let(d, a) if rng.random() < 0.6 else a.let(**d)
-            self.hold(r, sp.cofactor(ta, d), 'cudd.let-constants')
+            r = bdd.let(d, a) if rng.random() < 0.6 or \
+                'fmethods' not in feat else a.let(**d)
+            self.hold(r, sp.cofactor(ta, d), 'let-constants')
             site = 'let-constants'
-        elif k == 10:
+        elif k == 10 and 'let' in feat:
             a, ta = self.pick()
             d = {v: rng.choice(names) for v in
                  rng.sample(names, rng.randint(1, 2))}
-            self.hold(bdd.let(d, a), sp.rename(ta, d), 'cudd.let-rename')
+            self.hold(bdd.let(d, a), sp.rename(ta, d), 'let-rename')
             site = 'let-rename'
-        elif k == 11:
+        elif k == 11 and 'let' in feat:
             a, ta = self.pick()
             vs = rng.sample(names, rng.randint(1, 2))
             subs = {v: self.pick() for v in vs}
             d = {v: e[0] for v, e in subs.items()}
             want = sp.substitute(ta, {v: e[1] for v, e in subs.items()})
-            self.hold(bdd.let(d, a), want, 'cudd.let-compose')
+            self.hold(bdd.let(d, a), want, 'let-compose')
+            d = subs = None
             site = 'let-compose'
-        elif k == 12:
-            d = {v: rng.random() < 0.5 for v in
-                 rng.sample(names, rng.randint(0, len(names)))}
-            self.hold(bdd.cube(d), sp.cube_table(d), 'cudd.cube')
+        elif k == 12 and 'cube' in feat:
+            if 'cube-signs' in feat:
+                d = {v: rng.random() < 0.5 for v in
+                     rng.sample(names, rng.randint(0, len(names)))}
+                arg = d
+            else:
+                d = {v: True for v in
+                     rng.sample(names, rng.randint(0, len(names)))}
+                arg = list(d)
+            self.hold(bdd.cube(arg), sp.cube_table(d), 'cube')
             site = 'cube'
-        elif k == 13:
+        elif k == 13 and 'support' in feat:
             a, ta = self.pick()
             if bdd.support(a) != sp.support(ta) or a.support != \
                     sp.support(ta):
-                raise Violation('cudd.support', 'wrong-support', None)
-            nv = len(sp.support(ta)) + rng.randint(0, 2)
-            if bdd.count(a, nv) != sp.count(ta, nv):
-                raise Violation('cudd.count', 'wrong-count',
-                                (bdd.count(a, nv), sp.count(ta, nv)))
-            ms = list(bdd.pick_iter(a))
-            u = 0
-            for m_ in ms:
-                u |= sp.cube_table(m_)
-            if u != ta:
-                raise Violation('cudd.pick_iter', 'models-not-covered', None)
-            p = bdd.pick(a)
-            if (p is None) != (ta == 0):
-                raise Violation('cudd.pick', 'none-iff-false-violated', p)
+                raise Violation(self.P + 'support', 'wrong-support', None)
+            if 'count' in feat:
+                nv = len(sp.support(ta)) + rng.randint(0, 2)
+                if bdd.count(a, nv) != sp.count(ta, nv):
+                    raise Violation(self.P + 'count', 'wrong-count',
+                                    (bdd.count(a, nv), sp.count(ta, nv)))
+            if 'pick' in feat:
+                u = 0
+                for m_ in bdd.pick_iter(a):
+                    u |= sp.cube_table(m_)
+                if u != ta:
+                    raise Violation(self.P + 'pick_iter',
+                                    'models-not-covered', None)
+                p = bdd.pick(a)
+                if (p is None) != (ta == 0):
+                    raise Violation(self.P + 'pick',
+                                    'none-iff-false-violated', p)
             site = 'queries'
-        elif k == 14:
+        elif k == 14 and 'to_expr' in feat:
             a, ta = self.pick()
             s = bdd.to_expr(a)
             if formula.meaning(s, sp) != ta:
-                raise Violation('cudd.to_expr', 'text-means-other-function',
-                                s)
-            self.hold(bdd.add_expr(s), ta, 'cudd.add_expr')
+                raise Violation(self.P + 'to_expr',
+                                'text-means-other-function', s)
+            self.hold(bdd.add_expr(s), ta, 'add_expr')
             site = 'to_expr'
-        elif k == 15:
+        elif k == 15 and 'traverse' in feat:
             a, ta = self.pick()
             if a.var is not None:
-                v = a.var
                 lo, hi = a.low, a.high
                 lvl, lo2, hi2 = bdd.succ(a)
-                tn = sp.NOT(ta) if a.negated else ta
-                self.hold(lo, sp.cof(tn, v, 0), 'cudd.low')
-                self.hold(hi, sp.cof(tn, v, 1), 'cudd.high')
-                if lo2 != lo or hi2 != hi or len(a) < 2:
-                    raise Violation('cudd.succ', 'succ-differs', None)
-                del lo2, hi2
+                # the wrapper's own convention decides what low/high
+                # denote (Sylvan transfers the complement mark); what is
+                # judged is the expansion through succ and the ledger
+                self.hold(lo, None, 'low')
+                self.hold(hi, None, 'high')
+                self.hold(lo2, None, 'succ')
+                self.hold(hi2, None, 'succ')
+                m = sp.var(a.var)
+                t2 = (m & self.pool[-1][1]) | (sp.NOT(m) & self.pool[-2][1])
+                if a.negated:
+                    t2 = sp.NOT(t2)
+                if t2 != ta:
+                    raise Violation(self.P + 'succ',
+                                    'expansion-gives-other-function', None)
+                lo = hi = lo2 = hi2 = None
             site = 'traverse'
         elif k == 16:
             a, ta = self.pick()
-            sym = rng.choice(UNOPS)
+            sym = rng.choice(UNOPS if self.be.name != 'buddy'
+                             else ('!', 'not'))
             r = bdd.apply(sym, a) if rng.random() < 0.5 else ~a
-            self.hold(r, sp.NOT(ta), 'cudd.apply-not')
+            self.hold(r, sp.NOT(ta), 'apply-not')
             site = 'not'
         elif k == 17:
             (a, ta), (b, tb) = self.pick(), self.pick()
-            kk = rng.randrange(4)
-            r, want = ((a & b, ta & tb), (a | b, ta | tb),
-                       (a.implies(b), sp.IMPLIES(ta, tb)),
-                       (a.equiv(b), sp.EQUIV(ta, tb)))[kk]
-            self.hold(r, want, 'cudd.Function-operators')
+            kk = rng.randrange(4 if 'implies-equiv' in feat else 2)
+            if kk == 0:
+                r, want = a & b, ta & tb
+            elif kk == 1:
+                r, want = a | b, ta | tb
+            elif kk == 2:
+                r, want = a.implies(b), sp.IMPLIES(ta, tb)
+            else:
+                r, want = a.equiv(b), sp.EQUIV(ta, tb)
+            self.hold(r, want, 'Function-operators')
             site = 'fop'
-        elif k == 18:
-            # copy to another manager and back
+        elif k == 18 and 'copy' in feat:
             a, ta = self.pick()
             other = c.BDD()
             other.declare(*self.names)
             o = bdd.copy(a, other) if rng.random() < 0.5 else \
                 c.copy_bdd(a, other)
             if self.be.tt(o, sp) != ta:
-                raise Violation('cudd.copy', 'copy-denotes-other-function',
-                                None)
+                raise Violation(self.P + 'copy',
+                                'copy-denotes-other-function', None)
             back = other.copy(o, bdd)
-            del o
-            self.hold(back, ta, 'cudd.copy')
-            del other
+            o = None
+            self.hold(back, ta, 'copy')
+            other = None
             site = 'copy'
-        elif k == 19:
-            # public incref/decref on a handle
+        elif k == 19 and 'incref' in feat:
             e = self.pick()
             bdd.incref(e[0])
             if rng.random() < 0.7:
                 bdd.decref(e[0], recursive=rng.random() < 0.5)
+            e = None
             site = 'incref-decref'
-        elif k == 20:
+        elif k == 20 and 'rejected' in feat:
             # rejected calls must not leak temporaries; they run in
             # their own frames, which are dead (and can be cleared) when
             # the ledger is compared
@@ -559,8 +676,7 @@ class Hist:
             bdd.add_expr('TRUE')
             _clear_leaked_tracebacks(self.ctx)
             site = 'rejected-calls'
-        elif k == 21:
-            # explicit reordering
+        elif k == 21 and 'reorder' in feat:
             if rng.random() < 0.5:
                 bdd.reorder()
             else:
@@ -568,42 +684,81 @@ class Hist:
                 rng.shuffle(o)
                 bdd.reorder({v: i for i, v in enumerate(o)})
                 if bdd.var_levels != {v: i for i, v in enumerate(o)}:
-                    raise Violation('cudd.reorder', 'order-not-reached',
+                    raise Violation(self.P + 'reorder', 'order-not-reached',
                                     bdd.var_levels)
             site = 'reorder'
-        else:
+        elif k == 22 and 'sylvan-module' in feat:
+            (a, ta), (b, tb) = self.pick(), self.pick()
+            qv = set(rng.sample(names, rng.randint(0, 2)))
+            kk = rng.randrange(3)
+            if kk == 0:
+                r, want = c.and_exists(a, b, qv), sp.exists(ta & tb, qv)
+            elif kk == 1:
+                r, want = c.or_forall(a, b, qv), sp.forall(ta | tb, qv)
+            else:
+                r = c.restrict(a, b)
+                got = self.be.tt(r, sp)
+                if tb and (got & tb) != (ta & tb):
+                    raise Violation(self.P + 'restrict',
+                                    'differs-inside-the-care-set', None)
+                want = None
+            self.hold(r, want, 'module-functions')
+            site = 'module-functions'
+        elif k == 23 and 'buddy-module' in feat:
+            (a, ta), (b, tb) = self.pick(), self.pick()
+            qv = rng.sample(names, rng.randint(0, 2))
+            kk = rng.randrange(3)
+            if kk == 0:
+                r = c.and_abstract(a, b, qv, bdd)
+                want = sp.exists(ta & tb, qv)
+            elif kk == 1:
+                r = c.or_abstract(a, b, qv, bdd)
+                want = sp.forall(ta | tb, qv)
+            else:
+                vs = rng.sample(names, 2)
+                d = {vs[0]: vs[1]}
+                # BuDDy's replace is a renaming onto a variable the
+                # function does not depend on
+                if sp.depends(ta, vs[1]):
+                    d = dict()
+                r = c.rename(a, bdd, d) if d else ~ ~a
+                want = sp.rename(ta, d)
+            self.hold(r, want, 'module-functions')
+            site = 'module-functions'
+        if site is None:
             # drop handles (the last reference of a node dies here)
             for _ in range(rng.randint(1, 3)):
                 if len(self.pool) > 1:
                     e = self.pool.pop(rng.randrange(len(self.pool)))
                     # a handle whose _ref was raised by incref is
                     # released by decref down to 1 first
-                    while e[0]._ref > 1:
+                    while self.be.nrefs(e[0]) > 1:
                         bdd.decref(e[0])
                     self.ctx.counters['handles_released'] += 1
-                    del e
+                    e = None
             site = 'drop'
         self.site = site
         self.ctx.counters['history_steps'] += 1
-        self.ctx.counters['step_' + site] += 1
+        self.ctx.counters[f'step_{self.be.name}_{site}'] += 1
         self.check(site)
 
 
-def cudd_history(ctx, spec, be):
-    rng = ctx.rng('history', spec['sub'])
+def history(ctx, spec, be):
+    rng = ctx.rng('history', be.name, spec['sub'])
     h = Hist(ctx, be, rng, spec['n'])
     for k in range(spec['steps']):
-        ok, _ = ctx.guard('cudd.' + h.site, h.step,
+        ok, _ = ctx.guard(be.name + '.' + h.site, h.step,
                           case=dict(spec=spec, step=k, last=h.site))
         if not ok:
             break
-        ctx.case(True, 'hist', spec['sub'], k,
+        ctx.case(True, 'hist', be.name, spec['sub'], k,
                  tuple(sorted(t for f, t in h.pool))[:12])
-    ctx.counters['order_rotations'] += be.stats[3]
-    ctx.sample(dict(kind='cudd-history', n=spec['n'], steps=spec['steps'],
-                    live_handles=len(h.pool)))
+    if be.name == 'cudd':
+        ctx.counters['order_rotations'] += be.stats[3]
+    ctx.sample(dict(kind='history', backend=be.name, n=spec['n'],
+                    steps=spec['steps'], live_handles=len(h.pool)))
     for e in h.pool:
-        while e[0]._ref > 1:
+        while be.nrefs(e[0]) > 1:
             h.bdd.decref(e[0])
     e = None
     ctx.counters['handles_released'] += len(h.pool)
@@ -616,10 +771,9 @@ def cudd_history(ctx, spec, be):
 
 def run_shard(ctx, spec):
     def run():
-        be = Backend()
+        be = Backend(spec['backend'])
         try:
-            fn = {'cudd-ops': cudd_ops, 'cudd-ite': cudd_ite,
-                  'cudd-history': cudd_history}[spec['kind']]
+            fn = dict(ops=ops, ite=ite_sweep, history=history)[spec['kind']]
             fn(ctx, spec, be)
         finally:
             be.close()
